@@ -203,12 +203,45 @@ PREC2 = PREC1 + '''
 2020-03-02 query "later" "SELECT date, account, position WHERE date >= 2020-02-01"
 '''
 
+# fix-G: named queries whose NAME needs quoting on the `.run` line (blanks, tabs, quotes, apostrophes, backslash, `;`, `*`,
+# the empty name, non-ASCII); every text is distinct, most depend on the default CLOSE date of their directive
+QUERIES_N = [
+    ('2022-02-01', 'monthly expenses', "SELECT date, account, position FROM year = 2022 WHERE account ~ 'Expenses'"),
+    ('2022-01-10', "john's-report", "SELECT date, narration, position FROM year >= 2021"),
+    ('2022-03-01', 'say "hi"', "SELECT account, sum(position) AS total FROM year = 2022 GROUP BY account"),
+    ('2022-02-15', 'tab\tname', "SELECT date, account FROM year = 2022 CLOSE ON 2022-01-15"),
+    ('2022-02-01', '  padded  ', "SELECT date, account, number FROM year = 2022 WHERE number > 5"),
+    ('2022-02-20', 'a  b', "BALANCES FROM year = 2022"),
+    ('2022-02-01', 'back\\slash x', "SELECT 7 AS seven"),
+    ('2022-01-06', 'semi; colon', "SELECT payee, position FROM year = 2022 WHERE payee IS NOT NULL"),
+    ('2022-02-01', '*', "SELECT 9 AS star"),
+    ('2022-03-10', 'star *', "JOURNAL 'Checking' FROM year = 2022"),
+    ('2022-02-01', '', "SELECT 11 AS empty_name"),
+    ('2022-01-21', '\u00e9t\u00e9 2022', "SELECT date, account, position FROM year = 2022 WHERE currency = 'EUR'"),
+    ('2022-02-01', "it's \"both\"", "SELECT account WHERE account = 'Nope'"),
+    ('2022-02-01', 'plain', "SELECT date, account, position FROM year = 2022 WHERE account ~ 'Broker'"),
+    ('2022-02-01', 'monthly', "SELECT 14 AS first_word_only"),
+    ('2022-02-01', 'expenses', "SELECT 15 AS second_word_only"),
+    ('2022-02-01', '"monthly', "SELECT 16 AS with_the_quote"),
+    ('2022-02-02', 'monthly expenses', "SELECT 17 AS duplicate_name"),
+]
+
+
+def _bc_string(x):
+    return '"' + x.replace('\\', '\\\\').replace('"', '\\"') + '"'
+
+
+def _qdirs_esc(qs):
+    return ''.join('%s query %s %s\n' % (d, _bc_string(n), _bc_string(t)) for d, n, t in qs)
+
+
 LEDGERS = {
     'A': BASE + _qdirs(QUERIES_A),
     'B': BASE,
     'C': BASE + ERRORS + _qdirs(QUERIES_C),
     'P1': PREC1,
     'P2': PREC2,
+    'N': BASE + _qdirs_esc(QUERIES_N),
 }
 
 # A line of this form in a session is an instruction to the harness, not input of the shell: the session's
@@ -852,6 +885,76 @@ def gen_session(rng, maxlen=12):
             'quiet': QUIET_KW and rng.random() < 0.3, 'lines': lines}
 
 
+# fix-G: `.run NAME` for names that need quoting.  Spellings of one name on the command line:
+RUN_SPELLINGS = ('dq', 'sq', 'posix', 'backslash', 'raw', 'split-quotes', 'dq-padded')
+RUN_HEADS = ['.run ', '.run ', '.run ', '.run  ', '.run\t', 'run ', 'RUN ', ' .run ']
+RUN_UNKNOWN = ['no such query', 'monthly  expenses', 'Monthly Expenses', 'monthly expenses ', 'expenses monthly', "john's", 'tab name',
+               'padded', 'a b', 'say hi', '* star', ' ']
+
+
+def spell(name, how):
+    """One way of writing `name` as the argument of `.run`; 'raw' and 'dq-padded' do NOT denote the name in general."""
+    if how == 'dq':
+        return '"' + name.replace('\\', '\\\\').replace('"', '\\"') + '"'
+    if how == 'sq':
+        return "'" + name.replace("'", "'\"'\"'") + "'"
+    if how == 'posix':
+        return shlex.quote(name)
+    if how == 'backslash':
+        return ''.join(c if c.isalnum() else '\\' + c for c in name) or "''"
+    if how == 'split-quotes':      # adjacent quoted pieces are one word: "mon"'thly exp'"enses"
+        k = len(name) // 2
+        return spell(name[:k], 'dq') + spell(name[k:], 'sq')
+    if how == 'dq-padded':
+        return '" ' + name.replace('\\', '\\\\').replace('"', '\\"') + '"'
+    return name
+
+
+def run_line(rng, name, how):
+    return rng.choice(RUN_HEADS) + spell(name, how) + rng.choice(['', '', '', ';', ' ;', '  ', '\t;'])
+
+
+def run_grid_sessions():
+    """Every named query of ledger N x every spelling, under the default settings: 7 lines per session."""
+    names = list(dict.fromkeys(n for _, n, _ in QUERIES_N))
+    lines = ['.run ' + spell(n, how) for n in names for how in RUN_SPELLINGS]
+    lines += ['.run ' + spell(n, how) for n in RUN_UNKNOWN for how in ('dq', 'sq', 'raw')]
+    return [{'ledger': 'N', 'format': 'text', 'numberify': False, 'lines': lines[k:k + 7], 'stream': 'run-names'}
+            for k in range(0, len(lines), 7)]
+
+
+def gen_run_session(rng):
+    """`.run` of names with blanks / quotes / apostrophes, quoted, unquoted, mixed with other names, next to typing the
+    same query text (no default CLOSE date), under varied settings."""
+    names = list(dict.fromkeys(n for _, n, _ in QUERIES_N))
+    text_of = {}
+    for _, n, t in QUERIES_N:
+        text_of.setdefault(n, t)
+    lines = []
+    for v in rng.sample(NONDEFAULT, rng.randint(0, 3)):
+        lines.append('.set ' + v)
+    for _ in range(rng.randint(2, 5)):
+        r = rng.random()
+        name = rng.choice(names)
+        if r < 0.50:
+            lines.append(run_line(rng, name, rng.choice(RUN_SPELLINGS)))
+        elif r < 0.62:      # two words on the line: another name, an option-like word, a quoted empty word
+            other = rng.choice(names + ['extra', '-x', ''])
+            a, b = spell(name, rng.choice(('dq', 'sq', 'posix'))), spell(other, rng.choice(('dq', 'sq', 'posix', 'raw')))
+            lines.append(rng.choice(RUN_HEADS) + rng.choice([a + ' ' + b, b + ' ' + a, a + '\t' + b, a + b]))
+        elif r < 0.74:
+            lines.append(run_line(rng, rng.choice(RUN_UNKNOWN), rng.choice(('dq', 'sq', 'posix', 'raw'))))
+        elif r < 0.82:      # unbalanced quoting
+            q = rng.choice('"\'')
+            lines.append('.run ' + rng.choice([q + name, name + q, q + name + q + q, '\\']))
+        elif r < 0.92:
+            lines.append(text_of[name])        # typed: same text, no default CLOSE date
+        else:
+            lines.append(rng.choice(['.run', '.run *', '.set format ' + rng.choice(['csv', 'text'])]))
+    return {'ledger': 'N', 'format': rng.choice(['text', 'text', 'csv']), 'numberify': rng.random() < 0.25,
+            'same_stdout': rng.random() < 0.2, 'quiet': QUIET_KW and rng.random() < 0.2, 'lines': lines, 'stream': 'run-names'}
+
+
 CORPUS = [
     {'ledger': 'A', 'format': 'text', 'numberify': False, 'lines': ['.set getstr 1']},
     {'ledger': 'A', 'format': 'text', 'numberify': False, 'lines': ['.set getstr']},
@@ -1101,6 +1204,55 @@ def gen_cli(rng, k):
     }
 
 
+# fix-G: the name of the -o file must not matter: names ending in every FORMATS key (both letter cases) and in other
+# extensions, crossed with explicit / absent -f and -m.  The expected file content is the model's: the renderer of the
+# EXPLICIT -f (text when absent) applied to the API result.
+CLI_RENDERED = [["SELECT date, payee, account, position, balance"],
+                ["SELECT account, sum(position) AS total GROUP BY account"],
+                ["BALANCES"], [".run fromq"], [".run", "food"],
+                ["SELECT account WHERE account = 'Nope'"]]
+
+
+def cli_output_names():
+    keys = sorted(shell.FORMATS.keys())
+    exts = []
+    for k in keys:
+        exts += ['.' + k, '.' + k.upper(), '.' + k.capitalize()]
+    for k in keys:
+        exts += ['.' + k + '.bak', '.' + k + '.', '_' + k, '.x' + k]
+    exts += ['', '.txt', '.json', '.', '.tsv']
+    return ['report' + e for e in exts] + keys       # a file called just `csv` / `text`
+
+
+def cli_output_grid(rng, full):
+    out = []
+    names = cli_output_names()
+    fmts = sorted(shell.FORMATS.keys()) + [None]        # explicit -f first: those are reported first
+    k = 0
+    for i, name in enumerate(names):
+        sensitive = i < 3 * len(shell.FORMATS)          # `.key` in some letter case
+        for fmt in fmts:
+            for numb in (False, True):
+                if not (full or sensitive or rng.random() < 0.5):
+                    continue
+                k += 1
+                out.append({'ledger': rng.choice(['B', 'C']), 'format': fmt, 'fmt_long': bool(k % 2), 'numberify': numb,
+                            'output': f'g{k}_{name}', 'quiet': rng.random() < 0.7, 'query': rng.choice(CLI_RENDERED[:5] if k % 7 else CLI_RENDERED),
+                            'stdin': '', 'stream': 'output-name'})
+    return out
+
+
+def output_ext(case):
+    """What of the -o name goes into a signature: its extension, or the whole name when it is a FORMATS key."""
+    if not case.get('output'):
+        return None
+    base = case['output'].split('_', 1)[-1]
+    ext = os.path.splitext(base)[1]
+    if ext in ('', '.txt'):
+        return base if base.lower() in shell.FORMATS else None
+    return '*' + ext
+
+
 def cli_args(case):
     args = []
     if case['format']:
@@ -1203,7 +1355,8 @@ def cli_signature(case, diffs):
     if case['numberify']:
         opts.append('-m')
     if case['output']:
-        opts.append('-o')
+        ext = output_ext(case)
+        opts.append('-o' if ext is None else '-o ' + ext)
     return 'cli:' + ','.join(d[0] for d in diffs) + ':' + ' '.join(opts) + ':' + case['ledger'] + ':' + \
         (' '.join(case['query']) if case['query'] else 'stdin ' + repr(case['stdin']))
 
@@ -1211,8 +1364,12 @@ def cli_signature(case, diffs):
 def shrink_cli(case, model_of):
     """Drop options one at a time while the disagreement persists."""
     cur = dict(case)
-    for key, neutral in (('numberify', False), ('output', None), ('format', None), ('quiet', False),
+    for key, neutral in (('numberify', False), ('output', None), ('output', 'out_s.txt'), ('format', None), ('quiet', False),
                          ('query', ['.set']), ('query', ['SELECT 1 AS x'])):
+        if key == 'output' and neutral and not cur['output']:
+            continue
+        if key == 'format' and cur.get('stream') == 'output-name' and cur['output']:
+            continue        # an EXPLICIT -f next to a suggestive -o name is the point of that stream: keep it visible
         cand = dict(cur)
         cand[key] = neutral
         if key == 'query':
@@ -1235,8 +1392,14 @@ def run(tier, rng):
     n_pure = 1200 if tier == 'quick' else 8000
     for k in LEDGERS:
         World.get(k)
+    # fix-G: directed streams (named queries whose names need quoting; -o file names with a format-like extension),
+    # drawn from the same PRNG without moving the draws of the streams below
+    saved_state = rng.getstate()
+    run_cases = run_grid_sessions() + [gen_run_session(rng) for _ in range(40 if tier == 'quick' else 600)]
+    out_cases = cli_output_grid(rng, full=(tier != 'quick'))
+    rng.setstate(saved_state)
     grid = grid_sessions()
-    cases = [dict(c) for c in CORPUS] + grid + [gen_session(rng) for _ in range(n_sessions)]
+    cases = [dict(c) for c in CORPUS] + grid + [gen_session(rng) for _ in range(n_sessions)] + run_cases
     models = model_sessions(cases)
     core.log(f'[C19] model sessions {time.time() - t0:.1f}s')
     results = core.pmap(_check_case, list(zip(cases, models)))
@@ -1275,7 +1438,7 @@ def run(tier, rng):
          'query': ['SELECT 1 AS x'], 'stdin': ''},
         {'ledger': 'C', 'format': 'csv', 'fmt_long': False, 'numberify': True, 'output': 'out_c.txt', 'quiet': False,
          'query': ['SELECT account, sum(position) AS total GROUP BY account'], 'stdin': ''},
-    ] + [gen_cli(rng, k) for k in range(n_cli)]
+    ] + [gen_cli(rng, k) for k in range(n_cli)] + out_cases
     cli_models = coq_eval('c19cli', [cli_expr(c) for c in cli_cases], 60)
     cli_results = [check_cli(x) for x in zip(cli_cases, cli_models)]
     cli_seen = set()
@@ -1351,7 +1514,12 @@ def run(tier, rng):
                 'non-trivial = distinct session in which a setting changed and a statement was typed; plus a grid: every '
                 'field x every listed value (assign, echo, list). CLI: random '
                 '-f/-m/-o/-q/QUERY|stdin combinations through CliRunner. Pure: onecmd dispatch on an instrumented shell, '
-                'shlex.split/repr/strip/int against CPython',
+                'shlex.split/repr/strip/int against CPython. Directed (fix-G): ledger N whose query directive names need quoting '
+                '(blanks, tab, quotes, apostrophe, backslash, `;`, `*`, empty, non-ASCII; also names that are single words of '
+                'another name) x 7 spellings of the .run argument (double/single/posix quoting, backslashes, raw, adjacent quoted '
+                'pieces, padded) + random sessions mixing them with other names, unknown names, unbalanced quotes and the typed '
+                'text; CLI grid: -o names ending in every FORMATS key (3 letter cases) and look-alike / other extensions x '
+                'explicit and absent -f x -m',
         'samples': [show(c) for c in cases[len(CORPUS) + len(grid):len(CORPUS) + len(grid) + 5]]
                    + [show_cli(c) for c in cli_cases[2:5]],
         'grid_sessions(field x value)': len(grid),
@@ -1368,6 +1536,36 @@ def run(tier, rng):
             'stdin': sum(c['query'] is None for c in cli_cases)},
         'exhaustive': False,
     }
+    # fix-G: evidence for the directed streams
+    run_hist, spelled = {}, 0
+    for case, m in zip(cases, models):
+        if case.get('stream') != 'run-names':
+            continue
+        for line, (events, stop, state) in zip(real_lines(case), m):
+            if not line.strip().lower().lstrip('.').startswith('run'):
+                continue
+            spelled += 1
+            k = 'nothing-printed'
+            for ev in events:
+                if ev[0] == 3:
+                    k = 'exception(shlex)'
+                elif ev[0] == 0 and ev[1] == 2 and ev[2][0] == 0:
+                    t = ''.join(map(chr, ev[2][1]))
+                    k = 'not-found' if 'not found' in t else 'too-many-arguments' if 'too many' in t else 'other-error'
+                elif ev[0] == 0 and ev[1] != 2:
+                    k = 'query-run' if k == 'nothing-printed' else k
+            run_hist[k] = run_hist.get(k, 0) + 1
+    cov['run_name_stream'] = {
+        'sessions': len(run_cases), 'grid_sessions(name x spelling)': len(run_grid_sessions()), 'run_lines': spelled,
+        'named_queries': len(QUERIES_N), 'names_needing_quotes': sum(1 for _, n, _ in QUERIES_N if shlex.quote(n) != n),
+        'spellings': list(RUN_SPELLINGS), 'outcome_histogram(model)': run_hist,
+        'samples': [show(c) for c in run_cases[:2] + run_cases[-2:]]}
+    oh = {}
+    for c in out_cases:
+        k = f"{os.path.splitext(c['output'].split('_', 1)[-1])[1] or '(none)'} / -f {c['format'] or '(absent)'}{' -m' if c['numberify'] else ''}"
+        oh[k] = oh.get(k, 0) + 1
+    cov['cli_output_name_stream'] = {'runs': len(out_cases), 'output_names': cli_output_names(),
+                                     'extension_x_format_histogram': oh, 'samples': [show_cli(c) for c in out_cases[:3]]}
     return {'coverage': cov, 'violations': violations}
 
 
